@@ -6,6 +6,7 @@ import (
 	"sort"
 	"strings"
 	"sync"
+	"sync/atomic"
 	"testing"
 	"time"
 
@@ -14,6 +15,7 @@ import (
 	"go.6river.tech/mmmbbb/grpc/pubsubpb"
 
 	"verif/harness/evd"
+	"verif/harness/ref"
 	"verif/harness/rig"
 	"verif/harness/seam"
 )
@@ -27,7 +29,7 @@ type c11Msg struct {
 	id      string // message id
 	ackID   string
 	size    int
-	state   string // due | out | acked
+	state   string // due | out | acked | leased (handed out by a unary pull before the stream opened)
 	leaseHi time.Time
 	extNack bool // made due by a unary ModifyAckDeadline(0): still occupies its slot
 	sends   int
@@ -131,6 +133,63 @@ func (l *c11Ledger) stalled() string {
 	return ""
 }
 
+// headOfLinePossible decides, for a stall that has already been established,
+// whether the known head-of-line defect can explain it: the sender's fetch takes
+// the first L = min(free message slots, 100) due deliveries in attempt_at order
+// and drops those that do not fit the byte budget. It explains the stall only if
+// those first L rows can all be oversized (rows with equal attempt_at may come
+// in either order).
+func (l *c11Ledger) headOfLinePossible(d rig.Dump) bool {
+	l.mu.Lock()
+	defer l.mu.Unlock()
+	now := time.Now()
+	n, bytes := l.outstanding(false, now)
+	L := l.maxMsgs - n
+	if L > 100 {
+		L = 100
+	}
+	freeBytes := l.maxBytes - bytes
+	type row struct {
+		at  time.Time
+		big bool
+	}
+	var rows []row
+	for _, r := range d["deliveries"] {
+		if r["completed_at"] != "NULL" {
+			continue
+		}
+		at, err1 := time.Parse(time.RFC3339Nano, r["attempt_at"])
+		exp, err2 := time.Parse(time.RFC3339Nano, r["expires_at"])
+		m := l.byMsg[r["message_id"]]
+		if err1 != nil || err2 != nil || m == nil {
+			return true // cannot classify: leave it with the known finding
+		}
+		if at.After(now) || !exp.After(now) {
+			continue
+		}
+		rows = append(rows, row{at, m.size > freeBytes})
+	}
+	if L < 1 || len(rows) <= L {
+		// the fetch saw every due row: an oversized one cannot hide a fitting one
+		return false
+	}
+	sort.Slice(rows, func(i, j int) bool { return rows[i].at.Before(rows[j].at) })
+	cutoff := rows[L-1].at
+	before, tieBig := 0, 0
+	for _, r := range rows {
+		switch {
+		case r.at.Before(cutoff):
+			if !r.big {
+				return false // a fitting row certainly within the LIMIT
+			}
+			before++
+		case r.at.Equal(cutoff) && r.big:
+			tieBig++
+		}
+	}
+	return tieBig >= L-before
+}
+
 type lockedRand struct {
 	mu sync.Mutex
 	r  *rand.Rand
@@ -143,7 +202,7 @@ func TestC11(t *testing.T) {
 	col := evd.New("C11", cfg)
 	defer col.Flush()
 	n := cfg.N(480, 16000)
-	var freed, fullTotal, sendsTotal int64
+	var freed, fullTotal, sendsTotal, lapses int64
 	for i := 0; i < n; i++ {
 		seed := cfg.CaseSeed("C11", i)
 		if !cfg.Want(i, seed) {
@@ -185,10 +244,65 @@ func TestC11(t *testing.T) {
 				led.mu.Unlock()
 				trace = append(trace, fmt.Sprintf("publish %v", sz))
 			}
-			publish(3 + r.Intn(10))
+			// some cases first hand a few small messages out through a unary pull: they
+			// are leased elsewhere while the stream runs and become deliverable again
+			// purely by the passage of time (step "lease-lapse")
+			directed := i%5 == 4
+			var leaseEnd time.Time
+			if directed {
+				// byte-bound shape: something outstanding, a due message that is too big
+				// for the rest of the budget, and a small one that will become due by time
+				sizes = []int{10, 40, 70}
+				maxMsgs, maxBytes = []int64{2, 3, 10}[r.Intn(3)], 100
+				led.maxMsgs, led.maxBytes = int(maxMsgs), int(maxBytes)
+			}
+			prePull := func(k int) {
+				req := &pubsubpb.PublishRequest{Topic: topic}
+				small := sizes[0]
+				for j := 0; j < k; j++ {
+					req.Messages = append(req.Messages, &pubsubpb.PubsubMessage{Data: []byte(`"` + strings.Repeat("y", small-2) + `"`)})
+				}
+				resp := must(e.Pub.Publish(e.Ctx, req))
+				for _, id := range resp.MessageIds {
+					led.byMsg[id] = &c11Msg{id: id, size: small, state: "due"}
+				}
+				pr := must(e.Sub.Pull(e.Actor("ext"), &pubsubpb.PullRequest{Subscription: sub, MaxMessages: int32(k), ReturnImmediately: true}))
+				leaseEnd = time.Now().Add(ref.Backoff(100*time.Second, 200*time.Second, 1) + ref.JitterBound + time.Second)
+				for _, rm := range pr.ReceivedMessages {
+					m := led.byMsg[rm.Message.MessageId]
+					m.state, m.ackID = "leased", rm.AckId
+					led.byAck[rm.AckId] = m
+				}
+				trace = append(trace, fmt.Sprintf("unary-pull-before-stream %d x %d bytes", len(pr.ReceivedMessages), small))
+			}
+			if directed || r.Intn(3) == 0 {
+				prePull(1 + r.Intn(3))
+			}
+			if directed {
+				req := &pubsubpb.PublishRequest{Topic: topic}
+				var sz []int
+				for _, s := range [][]int{{40, 70}, {70, 40}, {40, 70, 70}, {40, 40, 70}}[r.Intn(4)] {
+					sz = append(sz, s)
+					req.Messages = append(req.Messages, &pubsubpb.PubsubMessage{Data: []byte(`"` + strings.Repeat("x", s-2) + `"`)})
+				}
+				resp := must(e.Pub.Publish(e.Ctx, req))
+				for j, id := range resp.MessageIds {
+					led.byMsg[id] = &c11Msg{id: id, size: sz[j], state: "due"}
+				}
+				trace = append(trace, fmt.Sprintf("publish %v", sz))
+			} else {
+				publish(3 + r.Intn(10))
+			}
 			// schedule noise: virtual delays at the stream's transaction boundaries and sends
+			// while the case waits for leases to run out the stream's boundary delays are
+			// long: in one state (byte budget binding, oversized message due) the sender
+			// re-fetches in a tight loop, and virtual minutes of that cost real ones
+			var slow atomic.Bool
 			seam.C.SetBoundaryDelays(
 				func(actor string) time.Duration {
+					if actor == "stream" && slow.Load() {
+						return time.Duration(500+lr.Intn(1000)) * time.Millisecond
+					}
 					if actor == "stream" {
 						return time.Duration(lr.Intn(3)) * time.Millisecond
 					}
@@ -219,6 +333,11 @@ func TestC11(t *testing.T) {
 			checkStall := func(after string) {
 				if s := led.stalled(); s != "" {
 					parts := strings.SplitN(s, "|", 2)
+					if parts[0] == "byte-head-of-line" && !led.headOfLinePossible(must(rig.TakeDump(e.RawDB()))) {
+						// an oversized message is waiting, but it cannot be what starved the
+						// fetch: a fitting message sorts within the fetch's LIMIT
+						parts[0] = "fitting-message-within-fetch-limit"
+					}
 					led.mu.Lock()
 					led.viol = append(led.viol, "stall:"+parts[0]+":after-"+after+"|after "+after+": "+parts[1])
 					led.mu.Unlock()
@@ -231,6 +350,18 @@ func TestC11(t *testing.T) {
 				var ids []string
 				for _, m := range led.byMsg {
 					if m.state == "out" {
+						ids = append(ids, m.ackID)
+					}
+				}
+				sort.Strings(ids)
+				return ids
+			}
+			leasedIDs := func() []string {
+				led.mu.Lock()
+				defer led.mu.Unlock()
+				var ids []string
+				for _, m := range led.byMsg {
+					if m.state == "leased" {
 						ids = append(ids, m.ackID)
 					}
 				}
@@ -304,6 +435,35 @@ func TestC11(t *testing.T) {
 					fs.Push(req)
 					trace = append(trace, fmt.Sprintf("stream-extend %d", len(sel)))
 					settle()
+				case (a == 8 || directed && s == 0) && len(leasedIDs()) > 0: // the leases held elsewhere run out
+					// nothing wakes the stream for this: a message becomes deliverable purely
+					// because time passes. The property promises promptness for capacity
+					// freed by acks and nacks; for this it promises "never stalls", which is
+					// checked as bounded progress: the message has to be sent within 70
+					// virtual seconds (the stream's fetch gives up and starts over after 59)
+					slow.Store(true)
+					sel := leasedIDs()
+					if d := time.Until(leaseEnd); d > 0 {
+						time.Sleep(d)
+					}
+					led.mu.Lock()
+					for _, id := range sel {
+						if m := led.byAck[id]; m.state == "leased" {
+							m.state = "due"
+						}
+					}
+					led.mu.Unlock()
+					trace = append(trace, fmt.Sprintf("lease-lapse %d", len(sel)))
+					settle()
+					for w := 0; w < 70 && led.stalled() != ""; w++ {
+						time.Sleep(time.Second)
+						settle()
+					}
+					slow.Store(false)
+					time.Sleep(2 * time.Second) // a long boundary delay that is already running ends
+					settle()
+					lapses++
+					checkStall("lease-lapse")
 				default:
 					publish(1 + r.Intn(4))
 					settle()
@@ -338,4 +498,5 @@ func TestC11(t *testing.T) {
 	col.Add("ev_sends_observed", sendsTotal)
 	col.Add("ev_sends_reaching_the_message_limit", fullTotal)
 	col.Add("ev_capacity_freeing_actions_checked_for_stall", freed)
+	col.Add("ev_lease_lapses_checked_for_stall", lapses)
 }
